@@ -32,6 +32,8 @@ After(r1, r2) == [r2 EXCEPT !.tr = r1.tr \o r2.tr, !.hs = r1.hs \o r2.hs]
 Variants == {"Recover", "RecoverT", "RecoverWithState", "RecoverWithStateT", "RecoverWith",
              "RecoverCase", "RecoverCaseT", "RecoverCaseWith"}
 RecoverWithProg == [k |-> "then", p |-> Prim("put", 60, 77, "-", "-"), q |-> Prim("pure", 61, 902, "-", "-")]
+\* (x = 1: the recovery program changes the state and then fails itself - the state reported is the one at THAT failure)
+RecoverWithProgF == [k |-> "then", p |-> Prim("put", 60, 77, "-", "-"), q |-> Prim("fail", 62, 0, "-", "h")]
 
 RECURSIVE Run(_, _), RunSeq(_, _, _), RunTrav(_, _, _, _), RunFold(_, _, _, _, _)
 \* Sequence / Concat: programs one after the other; keep collects all values (Sequence) or the last one (Concat)
@@ -65,7 +67,8 @@ Run(p, s) ==
     [] p.k = "fm"      -> LET r1 == Run(p.p, s) IN IF ~r1.ok THEN r1 ELSE After(r1, Run(Cont(p.c, r1.v), r1.s))
     [] p.k = "then"    -> LET r1 == Run(p.p, s) IN IF ~r1.ok THEN r1 ELSE After(r1, Run(p.q, r1.s))
     [] p.k = "map"     -> LET r1 == Run(p.p, s) IN IF ~r1.ok THEN r1 ELSE [r1 EXCEPT !.v = MapV(p.f, r1.v)]
-    [] p.k = "map2"    -> LET r1 == Run(p.p, s) IN
+    \* Ap(Map(P, curried f), Q): the function program runs first, then the argument program - the same as Map2(P, Q, f)
+    [] p.k \in {"map2", "ap"} -> LET r1 == Run(p.p, s) IN
                           IF ~r1.ok THEN r1
                           ELSE LET r2 == Run(p.q, r1.s) IN
                                IF ~r2.ok THEN After(r1, r2) ELSE After(r1, [r2 EXCEPT !.v = r1.v \o r2.v])
@@ -87,5 +90,5 @@ Run(p, s) ==
                         [] p.var = "RecoverWithState" -> [base EXCEPT !.ok = TRUE, !.v = <<1000 + r1.s>>, !.e = "-"]
                         [] p.var = "RecoverWithStateT" ->
                              IF p.x = 1 THEN [base EXCEPT !.e = "h"] ELSE [base EXCEPT !.ok = TRUE, !.v = <<1000 + r1.s>>, !.e = "-"]
-                        [] OTHER -> After(base, Run(RecoverWithProg, r1.s))     \* RecoverWith / RecoverCaseWith
+                        [] OTHER -> After(base, Run(IF p.x = 1 THEN RecoverWithProgF ELSE RecoverWithProg, r1.s))     \* RecoverWith / RecoverCaseWith
 =============================================================================
